@@ -617,6 +617,55 @@ def r11_more_shared_front_end_rules(ctx):
     encode_buffers(ctx)
 
 
+def _every_alternative_nonzero(fn, assert_term, core):
+    """A divisor assigned in several arms (`if x.is_empty() { 1 } else { x.len() }`): every arm's value is a non-zero constant,
+    or the length of something whose is_empty() was false (or whose length compared non-zero) on the way to that arm."""
+    cond = assert_term["cond"]
+    # find the local behind the divisor: the `a` operand of the Eq that feeds the assertion
+    pl = cond.get("move") or cond.get("copy")
+    dd = fn.whole_defs(pl["l"]) if pl else []
+    if len(dd) != 1 or dd[0][1] == "t" or dd[0][2]["rv"]["k"] != "bin":
+        return False
+    a = dd[0][2]["rv"]["a"]
+    for _ in range(4):
+        pla = (a.get("move") or a.get("copy")) if isinstance(a, dict) else None
+        if pla is None or pla["p"]:
+            return False
+        defs = fn.whole_defs(pla["l"])
+        if len(defs) == 1 and defs[0][1] != "t" and defs[0][2]["rv"]["k"] in ("use", "cast"):
+            a = defs[0][2]["rv"]["a"]
+            continue
+        break
+    else:
+        return False
+    if len(defs) < 2:
+        return False
+    for (bi, k, st) in defs:
+        if k == "t":
+            txt = sh(ne(fn.deep({"copy": {"l": pla["l"], "p": []}})))
+            callee = (st.get("res") or st.get("callee") or "")
+            if callee.split("::")[-1] != "len":
+                return False
+            subj = sh(ne(fn.deep(st["args"][0]))) if st.get("args") else "?"
+        else:
+            rv = st["rv"]
+            if rv["k"] == "use" and isinstance(rv["a"], dict) and rv["a"].get("int") not in (None, 0):
+                continue
+            e = ne(fn.deep_rvalue(rv))
+            if e[0] != "len":
+                return False
+            subj = sh(e[1])
+        known = False
+        for S, al in fn.constraints(bi):
+            si = fn.switch_info(S)
+            stxt = sh(ne(fn.deep(fn.blocks[S]["t"]["d"])))
+            if si["kind"] == "call" and (si["callee"] or "").split("::")[-1] == "is_empty" and subj in stxt and set(al) == {0}:
+                known = True
+        if not known:
+            return False
+    return True
+
+
 def r12_no_division_by_zero(ctx):
     """Integer division and remainder panic on a zero divisor (in every build profile).  Every `/` and `%` the compiler
     guards with a DivisionByZero / RemainderByZero assertion has a divisor that cannot be zero: a non-zero constant, a value
@@ -663,6 +712,8 @@ def r12_no_division_by_zero(ctx):
                         why = "clamped from below by clamp(c >= 1, ..)"
                     elif core[0] == "bin" and core[1] == "Add" and any(a[0] == "const" and isinstance(a[2], int) and a[2] >= 1 for a in (core[2], core[3])):
                         why = "x + c with c >= 1"
+                    elif core[0] in ("var", "phi", "local") and _every_alternative_nonzero(fn, t, core):
+                        why = "every value the divisor can take is non-zero (a non-zero constant, or a length taken where is_empty() was false)"
                     else:
                         dn = ne(core)
                         for op, A, B, S in cmp_facts(fn, b):
